@@ -16,6 +16,6 @@ for id in $ids; do
     v=$(echo "$out" | grep -m1 '^VIOLATION')
     if [ $rc -eq 0 ]; then verdict="MISSED"; elif echo "$v" | grep -q 'no-failing-input-found'; then verdict="caught-without-input"; elif [ -n "$v" ]; then verdict="caught-with-replay"; else verdict="check-broken(rc=$rc)"; fi
     echo "SEEDED $pd: $verdict"
-    git -C $R checkout -- . ; git -C $R clean -fdq -- src tests 2>/dev/null
+    git -C $R apply -R $V/$pd || { echo "could not undo $pd"; exit 2; }
   done
 done
